@@ -64,3 +64,10 @@ add('C17', 'complete enumeration: all 2^11 issue-flag values (algebraic oracle) 
     'returned object must list every examined signature exactly once.',
     'Trusted: refpgp signer for building scenarios. Expiry is the only disqualifier reachable through the API; subkey-issued signatures under an expired primary are not asserted.',
     'DESIGN.md 4/C17')
+add('C19', 'model-based stateful testing (Hypothesis RuleBasedStateMachine) with a multiset model compared after every step, delta-debugged replayable histories, plus exhaustive enumeration of short operation sequences',
+    'Load (object/binary/armored/file/list/tuple x public/private half) and unload (by any identifier) over 7 certificates sharing names, comments and e-mail addresses, with '
+    'subkeys; after every step fingerprints() and its filtered forms, len(), membership and key() for every identifier of the universe (fingerprints with/without spaces, '
+    'key ids, short ids, names, comments, e-mails, subkey ids) and key(signature)/key(message) are compared with the model. All sequences up to length 4 (5 in thorough) '
+    'over an 8-operation alphabet are enumerated as well.',
+    'Trusted: the model (a list of loaded (certificate, half) pairs). Which of several carriers of a shared identifier is returned is not asserted.',
+    'DESIGN.md 4/C19')
